@@ -15,12 +15,12 @@ out=/verif/seeded/$name; mkdir -p $out
 log=$out/confirm.log; : > $log
 echo "## demo WITH change (must fail)" >> $log
 go test -count=1 -vet=off -run 'TestSeedDemo' $demopkgs >> $log 2>&1; with=$?
-git stash -q
+git apply -R /tmp/$name.patch
 echo "## demo WITHOUT change (must pass)" >> $log
 go test -count=1 -vet=off -run 'TestSeedDemo' $demopkgs >> $log 2>&1; without=$?
 echo "## existing tests WITHOUT change" >> $log
 go test -count=1 -vet=off -skip 'TestSeedDemo' $pkgs 2>&1 | grep -E '^(ok|FAIL|---)' | sort > /tmp/$name.base
-git stash pop -q
+git apply /tmp/$name.patch
 echo "## existing tests WITH change" >> $log
 go test -count=1 -vet=off -skip 'TestSeedDemo' $pkgs 2>&1 | grep -E '^(ok|FAIL|---)' | sort > /tmp/$name.with
 sed -E 's/[0-9.]+s$//; s/\([0-9.]+s\)//' /tmp/$name.base > /tmp/$name.base2; sed -E 's/[0-9.]+s$//; s/\([0-9.]+s\)//' /tmp/$name.with > /tmp/$name.with2
